@@ -22,7 +22,7 @@ import re
 import sys
 from contextlib import suppress
 from pathlib import Path
-from typing import Union, List, Optional
+from typing import Union, List, Optional, Dict
 
 from shelxfile.atoms.atom import Atom
 from shelxfile.atoms.atoms import Atoms
@@ -367,6 +367,8 @@ class Shelxfile():
         last_nonhydrogen_atom: Optional[Atom] = None
         lastcard = ''
         fvarnum = 1
+        # The physical lines of instructions that are wrapped over several lines, by the number of their first line:
+        wrapped_lines: Dict[int, Dict[int, str]] = {}
         for line_num, line in enumerate(self._reslist):
             self.error_line_num = line_num  # For exception during parsing.
             list_of_lines = [line_num]  # list of lines where a card appears, e.g. for atoms with two lines
@@ -383,6 +385,9 @@ class Shelxfile():
             while multiline:
                 # Glue together the two lines wrapped with "=":
                 wrapindex += 1
+                if line_num + wrapindex < len(self._reslist):
+                    wrapped_lines.setdefault(line_num, {line_num: self._reslist[line_num]})[line_num + wrapindex] = \
+                        self._reslist[line_num + wrapindex]
                 if line_num + wrapindex >= len(self._reslist):
                     # The last line of the file ends with "=", there is nothing to append:
                     line = line.split('!')[0].partition('=')[0]
@@ -804,6 +809,12 @@ class Shelxfile():
                     print("Error in line: {} -> {}".format(line_num + 1, line))
                     if self.debug:
                         raise ParseUnknownParam(debug=self.debug, verbose=self.verbose)
+        # Wrapped instructions that were not turned into an object stay in the file exactly as they were written:
+        for first_line, physical_lines in wrapped_lines.items():
+            # (Lines that are absorbed by another object, e.g. a further SFAC line, are not written at all.)
+            if isinstance(self._reslist[first_line], str) and first_line not in self.delete_on_write:
+                for num, text in physical_lines.items():
+                    self._reslist[num] = text
 
     def add_atom(self, name: str = None, coordinates: list = None, element='C', uvals: list = None, part: int = 0,
                  sof: float = 11.0):
